@@ -21,7 +21,8 @@ func init() { mon.Register("C04", buildC04) }
 var c04Alphabet = []string{"a", "e", "1", ".", "-", "+", "/", "*", "'", "\"", "<", ">", "=", "!", "{", "}", "#", ",", " ", "\r", "\n", "é", "ш", "😀"}
 
 var c04Fragments = []string{"abc", "x_1", "12", "3.5", "1e5", "2E-3", ".5", "5.", "-7", "'it''s'", "\"q\"", "'open", "/* c */", "/*open", "// line", "# hash", "<=", "<>", ">=", "<<", ">>", "!=", "{{", "}}", "{{{", "}}}", "{{#if a}}", "{{/a}}", "{{! note }}",
-	"\r\n", "\n\r", "\t", "  ", ",", ";", "\"a,b\"", "\"\"", "AND", "not", "Ünï", "шляпа", "€", "￿", "￾", "😀", "-", ".", "/", "e", "E+", "1e", "1e+", "--", "..", "-.", "-.5"}
+	"\r\n", "\n\r", "\t", "  ", ",", ";", "\"a,b\"", "\"\"", "AND", "not", "Ünï", "шляпа", "€", "￿", "￾", "😀", "-", ".", "/", "e", "E+", "1e", "1e+", "--", "..", "-.", "-.5",
+	"1e\u22125", "2.5E\u221210", "\u2212", "\u22127", "1E\uff0b3", "1e\u2013 5", "1\u20442", "3\u00b75", "1\u066b5", "\uff11\uff12", "0x1F", "0b101", "1_000", "1'000"}
 
 func randomTokenizerInput(r *mon.Rng, maxParts int) string {
 	var b strings.Builder
@@ -114,6 +115,21 @@ func buildC04(cfg *mon.Config) []*mon.Sub {
 		})
 	}
 	subs = append(subs, &mon.Sub{
+		Name: "exhaustive-line-ends", Rule: "every string of length <= 6 over {a, comma, CR, LF} (so every mixture of line ends and blank lines: CR LF CR CR, LF CR LF LF ...) on all tokenizer configurations; same oracle",
+		Exhaustive: true, DistinctByGen: true, Floor: 1000,
+		Gen: func(emit func(string)) {
+			enumStrings([]string{"a", ",", "\r", "\n"}, 6, func(parts []string) {
+				if len(parts) < 4 {
+					return
+				}
+				for _, k := range allTokenizers {
+					emit(k + "\x00" + joinParts(parts))
+				}
+			})
+		},
+		Exec: exec,
+	})
+	subs = append(subs, &mon.Sub{
 		Name:  "random-long",
 		Rule:  "seeded random concatenations of up to 80 single characters and lexeme fragments (numbers in all notations, open and closed quotes and comments, multi-character symbols, mustache tags, line ends, non-ASCII) on all six tokenizer configurations; same oracle; non-trivial as above, distinct by hash",
 		Floor: 1000,
@@ -164,7 +180,7 @@ func buildC04(cfg *mon.Config) []*mon.Sub {
 				rep := func(s string) string {
 					return strings.Repeat(s, n/len([]rune(s))+1)[:0] + string([]rune(strings.Repeat(s, n/len([]rune(s))+1))[:n])
 				}
-				toks := []string{rep("w"), rep("wé"), rep("7"), rep("3") + "." + rep("4"), "'" + rep("q ") + "'", "\"" + rep("x,") + "\"", rep(" \t"), "/*" + rep("c*") + "*/", "#" + rep("h"), rep("ш"), rep("ab-"), rep("€"), "x" + rep("€"), "xy" + rep("€"), rep("😀"), "x" + rep("ш")}
+				toks := []string{rep("w"), rep("wé"), rep("7"), rep("3") + "." + rep("4"), "'" + rep("q ") + "'", "\"" + rep("x,") + "\"", rep(" \t"), "/*" + rep("c*") + "*/", "#" + rep("h"), "{{" + rep(" ") + "a}}", "{{{" + rep(" \t") + "b }}}", "{{" + rep("\n") + "! c }}", "x{{#" + rep(" ") + "s}}y{{/s}}", rep("ш"), rep("ab-"), rep("€"), "x" + rep("€"), "xy" + rep("€"), rep("😀"), "x" + rep("ш")}
 				for _, k := range allTokenizers {
 					for _, t := range toks {
 						emit(k + "\x00" + t)
